@@ -134,4 +134,33 @@ def oracle(p, o):
             if isinstance(val, ast.Constant) and isinstance(val.value, str) and wrapper is None:
                 if [r for r in o["results"] if r["test_id"] == "B608" and r["lineno"] == n.lineno]:
                     bad("a plain SQL string literal (no construction) is reported as B608")
+        # f-strings, wherever the statement stands (module, class body, method): placeholders are plain names, the literal
+        # parts decide whether it looks like SQL - with the placeholders dropped and with something in their place alike
+        stmts = [n for n in ast.walk(tree) if isinstance(n, (ast.Assign, ast.Expr))]
+        for n in stmts:
+            val, wrapper = None, None
+            if isinstance(n, ast.Assign):
+                val = n.value
+            elif isinstance(n.value, ast.Call) and isinstance(n.value.func, ast.Attribute) \
+                    and n.value.func.attr in ("execute", "executemany") and len(n.value.args) == 1 and not n.value.keywords:
+                val, wrapper = n.value.args[0], n.value
+            if not isinstance(val, ast.JoinedStr) or "nosec" in p["src"]:
+                continue
+            parts = val.values
+            if not any(isinstance(v, ast.FormattedValue) for v in parts) or not any(isinstance(v, ast.Constant) for v in parts):
+                continue
+            if not all(isinstance(v, ast.Constant) or (isinstance(v.value, ast.Name) and v.format_spec is None and v.conversion == -1) for v in parts):
+                continue
+            if sum(1 for m_ in stmts if m_.lineno <= n.end_lineno and m_.end_lineno >= n.lineno) != 1:
+                continue                         # another statement shares the lines: attribution by line would be ambiguous
+            dropped = "".join(v.value for v in parts if isinstance(v, ast.Constant))
+            filled = "".join(v.value if isinstance(v, ast.Constant) else "x" for v in parts)
+            hits = [r for r in o["results"] if r["test_id"] == "B608" and n.lineno <= r["lineno"] <= n.end_lineno]
+            if SQL.search(dropped) and SQL.search(filled):
+                if len(hits) != 1:
+                    bad("SQL-looking f-string on line %d is reported as B608 %d times" % (n.lineno, len(hits)))
+                elif (hits[0]["conf"] == "MEDIUM") != (wrapper is not None):
+                    bad("B608 confidence %s for the f-string on line %d (MEDIUM exactly when directly inside execute())" % (hits[0]["conf"], n.lineno))
+            elif hits and not SQL.search(dropped) and not SQL.search(filled) and not SQL.search(filled + " x"):
+                bad("B608 reported for an f-string that does not look like SQL on line %d" % n.lineno)
     return out
